@@ -24,12 +24,13 @@ type half struct {
 	deadline time.Time
 	timer    *time.Timer
 	written  int64
-	stall    bool  // virtual time: a read that would block with an armed deadline times out at once
-	werr     error // injected write error
-	waiters  int   // readers blocked because the queue is empty
-	window   int   // > 0: a writer blocks while this many octets are unread (a peer that stops reading stalls it); < 0: every write blocks
-	wwaiters int   // writers blocked by the window
-	dlgen    int64 // number of deadline changes so far
+	stall    bool          // virtual time: a read that would block with an armed deadline times out at once
+	werr     error         // injected write error
+	waiters  int           // readers blocked because the queue is empty
+	window   int           // > 0: a writer blocks while this many octets are unread (a peer that stops reading stalls it); < 0: every write blocks
+	wwaiters int           // writers blocked by the window
+	dlgen    int64         // number of deadline changes so far
+	linger   time.Duration // > 0: a Write returns only once the peer has taken the octets and waits for more, plus this long
 }
 
 func newHalf() *half { h := &half{}; h.cond = sync.NewCond(&h.mu); return h }
@@ -63,6 +64,23 @@ func (h *half) write(p []byte) (int, error) {
 	h.buf = append(h.buf, p...)
 	h.written += int64(len(p))
 	h.cond.Broadcast()
+	if h.linger > 0 {
+		// a write that returns late: the peer has long read the octets (and reacted to them) when the caller
+		// gets control back - as with a loaded machine or a slow network stack
+		d := h.linger
+		h.mu.Unlock()
+		for i := 0; i < 2500; i++ {
+			h.mu.Lock()
+			taken := len(h.buf) == 0 && h.waiters > 0 || h.rclosed || h.wclosed
+			h.mu.Unlock()
+			if taken {
+				break
+			}
+			time.Sleep(20 * time.Microsecond)
+		}
+		time.Sleep(d)
+		h.mu.Lock()
+	}
 	return len(p), nil
 }
 
@@ -178,6 +196,14 @@ func (c *Conn) SetPeerWindow(n int) {
 	c.r.window = n
 	c.r.cond.Broadcast()
 	c.r.mu.Unlock()
+}
+
+// SetWriteLinger makes every Write on this end return late: only once the peer has taken the octets and is waiting
+// for more (at most 50 ms), plus d.
+func (c *Conn) SetWriteLinger(d time.Duration) {
+	c.w.mu.Lock()
+	c.w.linger = d
+	c.w.mu.Unlock()
 }
 
 // PeerBlockedInWrite tells whether the peer is blocked in a Write to this end because of the window (it has
